@@ -75,8 +75,8 @@ impl<'a> Which<'a> {
         self.n_ops()
             + match self {
                 Which::Bm(_) => 3,
-                Which::Core(_) => 4,
-                Which::Stream(_) => 1,
+                Which::Core(d) => if d.seekable { 5 } else { 4 },
+                Which::Stream(d) => if d.seekable { 2 } else { 1 },
                 Which::Buf(_) => 1,
             }
     }
@@ -90,8 +90,10 @@ impl<'a> Which<'a> {
                 (Which::Core(_), 0) => "apply_keystream_block_inout()".into(),
                 (Which::Core(_), 1) => "write_keystream_block()".into(),
                 (Which::Core(_), 2) => format!("process_with_backend(caller closure, {par} blocks)"),
-                (Which::Core(_), _) => format!("apply_keystream_blocks_inout({par})"),
-                (Which::Stream(_), _) => format!("apply_keystream_inout({})", 2 * cfg.bs + 3),
+                (Which::Core(_), 3) => format!("apply_keystream_blocks_inout({par})"),
+                (Which::Core(_), _) => "set_block_pos(last counter value - 3)".into(),
+                (Which::Stream(_), 0) => format!("apply_keystream_inout({})", 2 * cfg.bs + 3),
+                (Which::Stream(_), _) => format!("seek::<u128>({}*2^32 - {})", cfg.bs, cfg.bs + 3),
                 (Which::Buf(_), _) => format!("process({})", 2 * cfg.bs),
             };
         }
@@ -112,6 +114,42 @@ impl<'a> Which<'a> {
             (Which::Buf(_), 2) => "get_state()".into(),
             (Which::Buf(_), 3) => format!("process({})", cfg.bs - 1),
             (Which::Buf(_), _) => format!("process({})", cfg.bs / 2 + 1),
+        }
+    }
+}
+
+impl<'a> Which<'a> {
+    /// What a FRESH instance must observe for operation 0 followed by operation 1, computed from the reference model alone
+    /// (no real object involved): used where an expectation obtained by running the real code could itself be contaminated
+    /// by process-wide state.
+    pub fn ref_first_two_ops(&self, cfg: &Cfg, key: &[u8], iv: &[u8], data: &[u8]) -> [Vec<u8>; 2] {
+        let bs = cfg.bs;
+        let par = crate::util::par_of(cfg);
+        match self {
+            Which::Bm(d) => {
+                let g = d.mbs;
+                let n = (par + 1) * g;
+                let input = [&data[..g], &data[..n]].concat();
+                let out = crate::fe::family_ref(cfg, d.mode, d.dir, key, iv, &input).0;
+                [out[..g].to_vec(), out[g..].to_vec()]
+            }
+            Which::Core(d) => {
+                let ks = crate::fe::family_ref(cfg, d.mode, Dir::Enc, key, iv, &vec![0u8; (par + 2) * bs]).0;
+                [rf::x(&data[..bs], &ks[..bs]), ks[bs..].to_vec()]
+            }
+            Which::Stream(d) => {
+                let ks = crate::fe::family_ref(cfg, d.mode, Dir::Enc, key, iv, &vec![0u8; bs + 2]).0;
+                let mut a = rf::x(&data[..1], &ks[..1]);
+                a.push(1);
+                let mut b = rf::x(&data[..bs + 1], &ks[1..]);
+                b.push(1);
+                [a, b]
+            }
+            Which::Buf(d) => {
+                let input = [&data[..1], &data[..bs + 1]].concat();
+                let out = crate::fe::family_ref(cfg, "cfb", d.dir, key, iv, &input).0;
+                [out[..1].to_vec(), out[1..].to_vec()]
+            }
         }
     }
 }
@@ -184,6 +222,18 @@ impl Obj {
                     let _ = c.apply_blocks(Kind::B2b, &data[..par * bs], &mut o);
                     o
                 }
+                14 => {
+                    // three blocks before the end of the counter space, whatever the counter width
+                    let w = if c.set_block_pos(u128::MAX - 3) {
+                        128
+                    } else if c.set_block_pos(u64::MAX as u128 - 3) {
+                        64
+                    } else {
+                        let _ = c.set_block_pos(u32::MAX as u128 - 3);
+                        32
+                    };
+                    vec![w as u8]
+                }
                 0 => {
                     let mut o = data[..bs].to_vec();
                     let _ = c.apply_blocks(Kind::InPlace, &[], &mut o);
@@ -217,7 +267,8 @@ impl Obj {
                     vec![w as u8]
                 }
             },
-            Obj::Stream(s) => match if op >= (if s.pos(SeekTy::U64).is_some() { 4 } else { 2 }) { 10 } else { op } {
+            Obj::Stream(s) => match if op >= (if s.pos(SeekTy::U64).is_some() { 4 } else { 2 }) { 10 + op - (if s.pos(SeekTy::U64).is_some() { 4 } else { 2 }) } else { op } {
+                11 => format!("{:?}", s.seek(SeekTy::U128, ((bs as u128) << 32) - bs as u128 - 3)).into_bytes(),
                 10 => {
                     let n = 2 * bs + 3;
                     let mut o = dirty(n);
